@@ -1668,7 +1668,7 @@ impl Check for C17 {
         "C17"
     }
     fn rule(&self) -> String {
-        "histories of 5-200 calls over 62 exported tsrun_* functions from a handle table (live values by kind, survivors of a freed context, NULL, primitives incl. NaN, invalid UTF-8 and embedded NUL through the _len constructors); fault and schedule kinds: context freed with live handles and unanswered orders, order responses released right after tsrun_fulfill_orders followed by allocation churn, collections injected (H2, p in {0,0.01,0.1,0.5}) between and inside calls, native callbacks that return NULL / an error / a duplicate of an argument / re-enter the API (object_new, set, json_parse, get, create_pending_order), duplicate handles, values freed before or after their context, every entry point with NULL context and NULL handles. Every history runs in a worker process natively and under AddressSanitizer. non-trivial = a script ran to an end, an order crossed the API, or a context was freed mid-history; distinct = distinct (call count, event trace)".into()
+        "histories of 5-200 calls over 62 exported tsrun_* functions from a handle table (live values by kind, survivors of a freed context, NULL, primitives incl. NaN, invalid UTF-8 and embedded NUL through the _len constructors); fault and schedule kinds: context freed with live handles and unanswered orders, order responses released right after tsrun_fulfill_orders followed by allocation churn, collections injected (H2, p in {0,0.01,0.1,0.5}) between and inside calls, native callbacks that return NULL / an error / a duplicate of an argument / re-enter the API (object_new, set, json_parse, get, create_pending_order), duplicate handles, values freed before or after their context, every entry point with NULL context and NULL handles. Every history runs in a worker process natively and under AddressSanitizer. non-trivial = a script ran to an end, an order crossed the API, or a context was freed mid-history; distinct = distinct (call count, event trace). Also: callbacks that return one of the handles they were given; programs that call one host function directly and from a promise handler running while the host settles the promise, and that issue batch orders; order payload handles (owned by the context) kept and inspected later; self-contained episodes: an internal module with object VALUE exports (export names built in one scratch buffer) registered after 0-129 allocations and imported by a script; a console callback fed texts with U+0000 and non-ASCII characters, compared byte for byte".into()
     }
     fn components(&self) -> Value {
         json!({"real": ["all exported tsrun_* functions of src/ffi (feature c-api)", "Interpreter behind the C API", "gc.rs"],
